@@ -81,7 +81,90 @@ def app_id_flavour(rng, intents, nconn):
     return out
 
 
+GDB_LANES = (12, 13, 14, 15)      # these lanes run the same property through the real GDB plugin path (fake gdb)
+
+
+def in_gdb_world():
+    import os
+    return os.environ.get('VERIF_WORLD') == 'gdb'
+
+
+def gen_gdb_session(seed, tier, weights, pid, ncmd_range=(1, 6), initial_filter_p=0.25, closing=True):
+    """the GDB-world variant of a session: in real use this is the only mode in which commands are typed while
+    messages are still arriving (the program is halted by a user interrupt, the command runs through
+    Plugin.invoke_command, the user continues)"""
+    from . import c10, c15
+    rng = random.Random('%d/gen-gdb' % seed)
+    nslots = rng.choice([1, 2, 2, 3])
+    n = rng.randint(6, 60 if tier == 'quick' else 150)
+    sides = [rng.choice(['client', 'server']) for _ in range(nslots)]
+    traffic = []
+    for s_ in range(nslots):
+        if rng.random() < 0.8:
+            traffic.append(['act', s_, 'get_registry', 0, 0, rng.randrange(1 << 30), 0])
+    traffic += c15.gen_gdb_traffic(rng, seed, nslots, n, p_destroy=0.0, p_foreign_thread=0.02)
+    w = W.World(seed, 0, ['client'], rig.REPO)
+    slotconn = {}
+    for it in traffic:
+        if it[0] == 'act':
+            if it[1] not in slotconn:
+                c = W.ConnState(len(w.conns), sides[it[1] % len(sides)], w)
+                w.conns.append(c)
+                slotconn[it[1]] = c.index
+            w.act(slotconn[it[1]], it[2], it[3], it[4], it[5])
+        elif it[0] == 'tick':
+            w.tick(it[1])
+    st = c15.FakeStream()
+    st.world = w
+    st.lines = [(None, x) for x in w.items]
+    voc = R.Vocab(st, oracles.conn_names(st))
+    cfg = {'world': 'gdb', 'kind': 'gdb', 'nslots': nslots, 'sides': sides, 'synth': True, 'suppress': rng.random() < 0.5}
+    if rng.random() < initial_filter_p:
+        m = R.gen_matcher(rng, voc, p_const=0.1)
+        cfg['filter'] = R.render(m)
+        cfg['filter_model'] = m
+    cmds = S.gen_commands(rng, voc, rng.randint(*ncmd_range), weights)
+    out = [['cmd', c10.gdb_spelling(rng, c[1], c[2]), c[2]] for c in cmds]
+    intents = S.insert_commands(rng, traffic, out)
+    if closing:
+        intents += [['cmd', 'wl connection all', {'t': 'connection', 'to': 'all'}],
+                    ['cmd', 'wllist *', {'t': 'list', 'm': {'kind': 'star'}, 'cap': None, 'closing': True}]]
+    return {'prop': pid, 'seed': seed, 'config': cfg, 'intents': intents}
+
+
+class GdbRes:
+    pass
+
+
+def run_and_judge_gdb(sc, want, prefix):
+    from .. import gdbworld
+    from . import c15, c18
+    V = common.Viol()
+    sim = gdbworld.GdbSim(sc)
+    sim.run()
+    V.counters.update(sim.counters)
+    st = c15.pseudo_stream(sim)
+    res = GdbRes()
+    res.rec = sim.rec
+    res.exception = None
+    res.conn_manager = sim.cm
+    if sim.start_exception:
+        V.add(prefix + '/exception', 'startup', sim.start_exception[-1200:])
+        return st, res, sim.tracker, V, sim
+    bad = [h for h in sim.hits if h['exception']] + [c for c in sim.cmd_log if c['exception']]
+    if bad:
+        V.add(prefix + '/exception', c18.trigger_of(bad[0]['exception']), bad[0]['exception'][-1200:])
+        return st, res, sim.tracker, V, sim
+    metas = [c['meta'] or {'t': 'other'} for c in sim.cmd_log]
+    # (the text gdb handed to the plugin is what the Controller saw; the session model is the same as in the component rig)
+    S.judge(sc, st, res, sim.tracker, metas, V, want)
+    V.bump('gdb_world_sessions')
+    return st, res, sim.tracker, V, sim
+
+
 def generate(seed, tier, index):
+    if in_gdb_world():
+        return gen_gdb_session(seed, tier, CMD_WEIGHTS, ID)
     if index % 6 == 5:
         # all histories, not only well-formed ones: messages on objects the tool cannot resolve, under selection changes
         # (filter stays `*`: what a matcher means for an unresolvable object is not C06's business)
@@ -122,13 +205,20 @@ def finish(sc, st, res, V, nontrivial):
     key = repr(cmds) + inter[:100]
     sample = {'config': {k: v for k, v in sc['config'].items() if not k.endswith('_model')},
               'commands': cmds[:8], 'messages': len(inter)}
+    if sc['config'].get('world') == 'gdb':
+        return {'violations': V.list, 'counters': V.counters, 'nt_keys': [key] if nontrivial else [], 'inter_key': key,
+                'states': [], 'digest': res.rec.digest(), 'canon': res.rec.digest(canonical=True),
+                'sim_us': 0, 'evals': 1, 'sample': sample}
     return {'violations': V.list, 'counters': V.counters, 'nt_keys': [key] if nontrivial else [], 'inter_key': key,
             'states': [], 'digest': res.rec.digest(), 'canon': res.rec.digest(canonical=True),
             'sim_us': st.world.now - st.world.epoch_us, 'evals': 1, 'sample': sample}
 
 
 def execute(sc):
-    st, res, tr, V0 = run_and_judge(sc, {'C06', 'C11'}, ID)
+    if sc['config'].get('world') == 'gdb':
+        st, res, tr, V0, sim = run_and_judge_gdb(sc, {'C06', 'C11'}, ID)
+    else:
+        st, res, tr, V0 = run_and_judge(sc, {'C06', 'C11'}, ID)
     V = common.Viol()
     V.counters = V0.counters
     for v in V0.list:
